@@ -677,8 +677,9 @@ func (e *Engine) instrEffects(in ssa.Instruction, cell func(*ssa.Alloc), heaps m
 			call(f)
 			// closures: cells captured by reference may be modified
 			if mc, ok := cc.Value.(*ssa.MakeClosure); ok {
-				for _, bnd := range mc.Bindings {
-					if a := rootAlloc(bnd); a != nil {
+				w := closureWrites(mc.Fn.(*ssa.Function), map[*ssa.Function]bool{})
+				for j, bnd := range mc.Bindings {
+					if a := rootAlloc(bnd); a != nil && w[j] {
 						cell(a)
 					}
 				}
@@ -686,8 +687,9 @@ func (e *Engine) instrEffects(in ssa.Instruction, cell func(*ssa.Alloc), heaps m
 			for _, a := range cc.Args {
 				if mc, ok := a.(*ssa.MakeClosure); ok {
 					call(mc.Fn.(*ssa.Function))
-					for _, bnd := range mc.Bindings {
-						if al := rootAlloc(bnd); al != nil {
+					w := closureWrites(mc.Fn.(*ssa.Function), map[*ssa.Function]bool{})
+					for j, bnd := range mc.Bindings {
+						if al := rootAlloc(bnd); al != nil && w[j] {
 							cell(al)
 						}
 					}
